@@ -158,6 +158,22 @@ func runC13(c *core.Ctx, r *core.Result) {
 					if d := s0.Diff(tm.ShapeOf(e)); d != "" {
 						return fail("branches:"+st.name+"|text@"+typeTail(culprit(s0, tm.ShapeOf(e))), "branch count / order / content changed at stage %s: %s", st.name, d)
 					}
+					if st.name != "local" && st.name != "atU" {
+						for i, n := range tm.Nodes(e0) {
+							was, p1 := tm.IsG(e0, n)
+							now, p2 := tm.IsG(e, n)
+							if p1 || p2 || !was || now {
+								continue
+							}
+							if _, why := tm.RefIs(e0, n); why == "method" && !hasLiveIsMethod(e, n) {
+								continue
+							}
+							if cul := culprit(s0, tm.ShapeOf(e)); cul != "" {
+								continue // a text change is reported by the branches clause
+							}
+							return fail("is-after-transfer:"+st.name, "the tree matched its own node %d (%T) before transfer but not at stage %s", i, n, st.name)
+						}
+					}
 					var refs []tm.NamedErr
 					refs = append(refs, sent...)
 					for i, n := range tm.Nodes(e) {
@@ -165,6 +181,30 @@ func runC13(c *core.Ctx, r *core.Result) {
 					}
 					for i, n := range tm.Nodes(e0) {
 						refs = append(refs, tm.NamedErr{Name: fmt.Sprintf("origin.node[%d]", i), Err: n})
+					}
+					// a match found on a multi-cause node that sits on the root's
+					// single-cause chain is found from the root as well
+					for c := e; c != nil; c = errors.UnwrapOnce(c) {
+						if len(errbase.UnwrapMulti(c)) == 0 {
+							continue
+						}
+						for _, pr := range probes {
+							if pr.Name == "error" {
+								continue
+							}
+							if ok, _, _ := pr.Try(c, errors.As); ok {
+								if ok2, _, _ := pr.Try(e, errors.As); !ok2 {
+									return fail("as-through-wrappers:"+st.name, "As(%s) succeeds on the multi-cause node (%T) but not on the error that wraps it (%T)", pr.Name, c, e)
+								}
+							}
+						}
+						for _, ref := range refs {
+							if ok, _ := tm.IsG(c, ref.Err); ok {
+								if ok2, _ := tm.IsG(e, ref.Err); !ok2 {
+									return fail("is-through-wrappers:"+st.name, "Is(%s) holds on the multi-cause node but not on the error that wraps it", ref.Name)
+								}
+							}
+						}
 					}
 					for _, mn := range multiNodes(e) {
 						if f := checkMultiNode(mn, refs, probes); f != "" {
@@ -179,6 +219,13 @@ func runC13(c *core.Ctx, r *core.Result) {
 					// %+v shows every branch: the message of each branch's root
 					// cause (first line) occurs in the verbose rendering
 					plain := fmt.Sprintf("%+v", errors.Formattable(e))
+					// ... as a numbered entry of its own: every layer of every
+					// branch, however many paths reach it, is one entry
+					if pv, perr := parseVerbose(plain); perr == "" && len(multiNodes(e)) > 0 {
+						if nn := len(tm.Nodes(e)); len(pv.entries) != nn {
+							return fail("verbose-entries:"+st.name, "%%+v at stage %s has %d numbered entries for the %d layers reachable through the branches", st.name, len(pv.entries), nn)
+						}
+					}
 					for _, mn := range multiNodes(e) {
 						for bi, b := range errbase.UnwrapMulti(mn) {
 							leaf := errors.UnwrapAll(b)
